@@ -461,7 +461,7 @@ def run(tier, seed, t0):
         tf = os.path.join(work, "trace.ndjson")
         core.write_ndjson(tf, rows)
         exp = core.validate("Trace_Grad", "Out", tf, work, constants=VC(), timeout=3000)["rows"]
-        rejected, clauses = [], Counter()
+        rejected, clauses = core.track([]), Counter()
         refusals = 0
         for t, o, e in zip(rows, obs, exp):
             clause = judge(o, e)
